@@ -734,78 +734,123 @@ Proof. vm_compute. reflexivity. Qed.
 (** * The real InformerMap (harness mode cachereal)
 
     The real Cache on top of the real InformerMap and real client-go informers; only the API server is a
-    fake whose LIST can hang or fail.  The informer map's calls are not visible here; observable per
-    operation, once things settled: the error class, OwnersForGKV of every kind, the number of open WATCH
-    streams per kind (= running informers past their initial LIST) and, per kind, which registered
-    handlers received an event sent down its streams; per run: the most streams of a kind ever open at
-    once.  A Watch during which LIST hangs or fails past the call's deadline is the model's
-    [informer_sync_fails]. *)
+    fake whose LIST can hang or fail and which serves a fixed set of objects per kind.  The informer map's
+    calls are not visible here; observable per operation, once things settled: the error class,
+    OwnersForGKV of every kind, the number of open WATCH streams per kind (= running informers past their
+    initial LIST), per kind which registered handlers received an event sent down its streams, and the
+    results of a battery of Get/List calls through the cache; per run: the most streams of a kind ever
+    open at once.  A Watch during which LIST hangs or fails past the call's deadline is the model's
+    [informer_sync_fails].  Objects are (namespace, name) pairs of numbers, namespace 0 = none. *)
 Record robs := RObs {
   r_err : err;
   r_snap : list (gvk * option (list owner));
   r_streams : list (gvk * N);
-  r_delivered : list (gvk * list handler)
+  r_delivered : list (gvk * list handler);
+  r_gets : list (gvk * N * N * option (option key));   (* kind, namespace, name |-> result of Cache.Get *)
+  r_lists : list (gvk * N * option (list key))          (* kind, namespace (0: all) |-> result of Cache.List *)
 }.
 
-Definition real_case := (list handler * list gvk * list (op * robs) * list (gvk * N))%type.
+(** handlers, kinds, the scope the API declares per kind (true = namespaced), the objects the API server
+    serves per kind, the operations with what was observed, peak streams per kind *)
+Definition real_case := (list handler * list gvk * list (gvk * bool) * list (gvk * list key) *
+                         list (op * robs) * list (gvk * N))%type.
 
-Definition robs_of (kinds : list gvk) (p : state * output) : robs :=
+Definition scope_of (tbl : list (gvk * bool)) (g : gvk) : bool :=
+  match lookup g tbl with Some b => b | None => true end.
+Definition store_of (tbl : list (gvk * list key)) (g : gvk) : list key :=
+  match lookup g tbl with Some l => l | None => [] end.
+
+Definition get_res_eqb := option_eqb (option_eqb key_eqb).
+Definition list_res_eqb := option_eqb (list_eqb key_eqb).
+
+Definition robs_of (kinds : list gvk) (scope : gvk -> bool) (store : gvk -> list key)
+           (gets : list (gvk * N * N)) (lists : list (gvk * N)) (p : state * output) : robs :=
   RObs (o_err (snd p)) (snap_of kinds (fst p))
        (map (fun g => (g, if runningb (fst p) g then 1 else 0)) kinds)
-       (map (fun g => (g, attached (fst p) g)) kinds).
+       (map (fun g => (g, attached (fst p) g)) kinds)
+       (map (fun q => let '(g, ns, n) := q in (g, ns, n, cache_get scope store (fst p) g ns n)) gets)
+       (map (fun q => let '(g, ns) := q in (g, ns, cache_list store (fst p) g ns)) lists).
 
 Definition robs_eqb (a b : robs) : bool :=
   err_eqb (r_err a) (r_err b) &&
   list_eqb (fun p q => (fst p =? fst q) && oset_eqb (snd p) (snd q)) (r_snap a) (r_snap b) &&
   list_eqb (fun p q => (fst p =? fst q) && (snd p =? snd q)) (r_streams a) (r_streams b) &&
-  list_eqb (fun p q => (fst p =? fst q) && set_eqb (snd p) (snd q)) (r_delivered a) (r_delivered b).
+  list_eqb (fun p q => (fst p =? fst q) && set_eqb (snd p) (snd q)) (r_delivered a) (r_delivered b) &&
+  list_eqb (fun p q => let '(g, ns, n, r) := p in let '(g', ns', n', r') := q in
+                       (g =? g') && (ns =? ns') && (n =? n') && get_res_eqb r r') (r_gets a) (r_gets b) &&
+  list_eqb (fun p q => let '(g, ns, r) := p in let '(g', ns', r') := q in
+                       (g =? g') && (ns =? ns') && list_res_eqb r r') (r_lists a) (r_lists b).
 
-Fixpoint agree_real_steps (fixed : bool) (kinds : list gvk) (s : state) (steps : list (op * robs)) : bool :=
+(** the reads the harness made at a step, without their results *)
+Definition asked_gets (b : robs) : list (gvk * N * N) := map (fun q => let '(g, ns, n, _) := q in (g, ns, n)) (r_gets b).
+Definition asked_lists (b : robs) : list (gvk * N) := map (fun q => let '(g, ns, _) := q in (g, ns)) (r_lists b).
+
+Fixpoint agree_real_steps (fixed : bool) (kinds : list gvk) (scope : gvk -> bool) (store : gvk -> list key)
+         (s : state) (steps : list (op * robs)) : bool :=
   match steps with
   | [] => true
   | (x, b) :: r =>
-      match find (fun x' => robs_eqb (robs_of kinds (stepf fixed s x')) b) (cands kinds x) with
-      | Some x' => agree_real_steps fixed kinds (fst (stepf fixed s x')) r
+      match find (fun x' => robs_eqb (robs_of kinds scope store (asked_gets b) (asked_lists b) (stepf fixed s x')) b)
+                 (cands kinds x) with
+      | Some x' => agree_real_steps fixed kinds scope store (fst (stepf fixed s x')) r
       | None => false
       end
   end.
 
 Definition agree_real (fixed : bool) (c : real_case) : bool :=
-  let '(handlers, kinds, steps, peaks) := c in agree_real_steps fixed kinds (init handlers) steps.
+  let '(handlers, kinds, scope, store, steps, peaks) := c in
+  agree_real_steps fixed kinds (scope_of scope) (store_of store) (init handlers) steps.
+
+Definition owners_in (b : robs) (g : gvk) : list owner :=
+  match lookup g (r_snap b) with Some (Some l) => l | _ => [] end.
 
 (** The property on what was observed: after every operation, for every kind, exactly one open WATCH
     stream if some owner references the kind and none otherwise (nothing scripts informerMap.Delete to
     fail here), ... *)
 Definition real_streams_ok (kinds : list gvk) (b : robs) : bool :=
   forallb (fun g =>
-    let own := match lookup g (r_snap b) with Some (Some l) => l | _ => [] end in
     match lookup g (r_streams b) with
-    | Some n => n =? (if nilb own then 0 else 1)
+    | Some n => n =? (if nilb (owners_in b g) then 0 else 1)
     | None => false
     end) kinds.
 
 (** ... every registered handler receives the events of a kind some owner references, ... *)
 Definition real_delivered_ok (handlers : list handler) (kinds : list gvk) (b : robs) : bool :=
   forallb (fun g =>
-    let own := match lookup g (r_snap b) with Some (Some l) => l | _ => [] end in
-    nilb own || match lookup g (r_delivered b) with Some d => subset handlers d | None => false end) kinds.
+    nilb (owners_in b g) || match lookup g (r_delivered b) with Some d => subset handlers d | None => false end) kinds.
 
-(** ... and never two streams of one kind at the same time. *)
+(** ... never two streams of one kind at the same time, ... *)
 Definition real_peaks_ok (kinds : list gvk) (peaks : list (gvk * N)) : bool :=
   forallb (fun g => match lookup g peaks with Some n => n <=? 1 | None => false end) kinds.
 
-Definition judge_real (c : real_case) : bool * bool * bool * bool * bool :=
-  let '(handlers, kinds, steps, peaks) := c in
+(** ... and reads: a Get of a kind some owner references returns the object the API server serves under
+    the scope-normalised key (namespace ignored for cluster-scoped kinds) iff there is one, a List returns
+    the served objects (of the namespace, if one is given); reads of a kind nobody references fail. *)
+Definition real_reads_ok (scope : gvk -> bool) (store : gvk -> list key) (b : robs) : bool :=
+  forallb (fun q => let '(g, ns, n, r) := q in
+     if nilb (owners_in b g) then get_res_eqb r None
+     else let k := store_key scope g ns n in
+          get_res_eqb r (Some (if existsb (key_eqb k) (store g) then Some k else None))) (r_gets b) &&
+  forallb (fun q => let '(g, ns, r) := q in
+     if nilb (owners_in b g) then list_res_eqb r None
+     else list_res_eqb r (Some (if ns =? 0 then store g else filter (fun k => fst k =? ns) (store g)))) (r_lists b).
+
+Definition judge_real (c : real_case) : bool * bool * bool * bool * bool * bool :=
+  let '(handlers, kinds, scope, store, steps, peaks) := c in
   (agree_real false c, agree_real true c,
    forallb (fun p => real_streams_ok kinds (snd p)) steps,
    forallb (fun p => real_delivered_ok handlers kinds (snd p)) steps,
-   real_peaks_ok kinds peaks).
+   real_peaks_ok kinds peaks,
+   forallb (fun p => real_reads_ok (scope_of scope) (store_of store) (snd p)) steps).
 
-(** What the repaired model predicts passes these checks, whatever start-up failures occur. *)
-Fixpoint real_steps_of (fixed : bool) (kinds : list gvk) (s : state) (ops : list op) : list (op * robs) :=
+(** What the repaired model predicts passes these checks, whatever start-up failures occur and whatever
+    reads are asked at every step. *)
+Fixpoint real_steps_of (fixed : bool) (kinds : list gvk) (scope : gvk -> bool) (store : gvk -> list key)
+         (gets : list (gvk * N * N)) (lists : list (gvk * N)) (s : state) (ops : list op) : list (op * robs) :=
   match ops with
   | [] => []
-  | x :: r => let p := stepf fixed s x in (x, robs_of kinds p) :: real_steps_of fixed kinds (fst p) r
+  | x :: r => let p := stepf fixed s x in
+              (x, robs_of kinds scope store gets lists p) :: real_steps_of fixed kinds scope store gets lists (fst p) r
   end.
 
 Lemma lookup_map_kinds {V} (f : gvk -> V) g kinds :
@@ -816,41 +861,74 @@ Proof.
   - destruct (g =? k) eqn:E; [apply N.eqb_eq in E; now subst|now apply IH].
 Qed.
 
-Lemma real_monitor_state handlers kinds s o' :
+Lemma key_eqb_refl k : key_eqb k k = true.
+Proof. now apply key_eqb_eq. Qed.
+
+Lemma get_res_eqb_refl r : get_res_eqb r r = true.
+Proof. destruct r as [[k|]|]; cbn; try reflexivity. apply key_eqb_refl. Qed.
+
+Lemma list_res_eqb_refl r : list_res_eqb r r = true.
+Proof. destruct r as [l|]; cbn; [|reflexivity]. apply list_eqb_refl, key_eqb_refl. Qed.
+
+Lemma real_monitor_state handlers kinds scope store gets lists s o' :
   hs s = handlers ->
+  Forall (fun q => In (fst (fst q)) kinds) gets -> Forall (fun q => In (fst q) kinds) lists ->
   (forall g, EIk (hs s) (view s g) /\ NEk (view s g)) ->
-  real_streams_ok kinds (robs_of kinds (s, o')) = true /\
-  real_delivered_ok handlers kinds (robs_of kinds (s, o')) = true.
+  let b := robs_of kinds scope store gets lists (s, o') in
+  real_streams_ok kinds b = true /\ real_delivered_ok handlers kinds b = true /\ real_reads_ok scope store b = true.
 Proof.
-  intros Hhs Hinv. unfold real_streams_ok, real_delivered_ok, robs_of. cbn [fst snd r_snap r_streams r_delivered].
-  split; apply forallb_forall; intros g Hg.
-  - rewrite (lookup_snap_of _ _ _ Hg), (lookup_map_kinds (fun k => if runningb s k then 1 else 0) g kinds Hg).
-    destruct (Hinv g) as [[Hiff _] Hne]. unfold view, NEk, runningb in *. cbn [fst snd] in *.
-    destruct (lookup g (refs s)) as [[|o l]|], (lookup g (infs s)) as [a|]; cbn; try reflexivity; exfalso.
-    all: first [now apply Hne
-               |apply (proj1 Hiff); [discriminate|reflexivity]
-               |apply (proj2 Hiff); [discriminate|reflexivity]].
-  - rewrite (lookup_snap_of _ _ _ Hg), (lookup_map_kinds (fun k => attached s k) g kinds Hg).
+  intros Hhs Hgk Hlk Hinv b.
+  assert (Hown : forall g, In g kinds -> owners_in b g = owners s g).
+  { intros g Hg. unfold owners_in, b, robs_of. cbn [r_snap fst]. now rewrite (lookup_snap_of _ _ _ Hg). }
+  assert (Hentry : forall g, nilb (owners s g) = negb (is_some (lookup g (refs s)))).
+  { intros g. destruct (Hinv g) as [_ Hne]. unfold view, NEk, owners in *. cbn [fst] in *.
+    destruct (lookup g (refs s)) as [[|o l]|]; cbn; try reflexivity. exfalso. now apply Hne. }
+  split; [|split].
+  - unfold real_streams_ok. apply forallb_forall. intros g Hg. rewrite (Hown g Hg), Hentry.
+    unfold b, robs_of. cbn [r_streams fst].
+    rewrite (lookup_map_kinds (fun k => if runningb s k then 1 else 0) g kinds Hg).
+    destruct (Hinv g) as [[Hiff _] _]. unfold view, runningb in *. cbn [fst snd] in *.
+    destruct (lookup g (refs s)) as [l|], (lookup g (infs s)) as [a|]; cbn; try reflexivity; exfalso.
+    + apply (proj1 Hiff); [discriminate|reflexivity].
+    + apply (proj2 Hiff); [discriminate|reflexivity].
+  - unfold real_delivered_ok. apply forallb_forall. intros g Hg. rewrite (Hown g Hg), Hentry.
+    unfold b, robs_of. cbn [r_delivered fst].
+    rewrite (lookup_map_kinds (fun k => attached s k) g kinds Hg).
     destruct (Hinv g) as [[Hiff Hatt] _]. unfold view, attached in *. cbn [fst snd] in *.
-    destruct (lookup g (refs s)) as [[|o l]|]; cbn; try reflexivity.
+    destruct (lookup g (refs s)) as [l|]; cbn; [|reflexivity].
     destruct (lookup g (infs s)) as [a|].
     + apply subset_incl. rewrite <- Hhs. now apply Hatt.
     + exfalso. apply (proj1 Hiff); [discriminate|reflexivity].
+  - unfold real_reads_ok. rewrite andb_true_iff. split; apply forallb_forall.
+    + intros q Hq. unfold b, robs_of in Hq. cbn [r_gets fst] in Hq.
+      apply in_map_iff in Hq as ([[g ns] n] & <- & Hin).
+      rewrite Forall_forall in Hgk. specialize (Hgk _ Hin). cbn in Hgk.
+      rewrite (Hown g Hgk), Hentry. unfold cache_get.
+      destruct (lookup g (refs s)); cbv [is_some negb]; apply get_res_eqb_refl.
+    + intros q Hq. unfold b, robs_of in Hq. cbn [r_lists fst] in Hq.
+      apply in_map_iff in Hq as ([g ns] & <- & Hin).
+      rewrite Forall_forall in Hlk. specialize (Hlk _ Hin). cbn in Hlk.
+      rewrite (Hown g Hlk), Hentry. unfold cache_list.
+      destruct (lookup g (refs s)); cbv [is_some negb]; apply list_res_eqb_refl.
 Qed.
 
-Theorem monitor_real_sound_fixed handlers kinds ops :
+Theorem monitor_real_sound_fixed handlers kinds scope store gets lists ops :
   no_delete_failures ops = true ->
-  let steps := real_steps_of true kinds (init handlers) ops in
+  Forall (fun q => In (fst (fst q)) kinds) gets -> Forall (fun q => In (fst q) kinds) lists ->
+  let steps := real_steps_of true kinds scope store gets lists (init handlers) ops in
   forallb (fun p => real_streams_ok kinds (snd p)) steps = true /\
-  forallb (fun p => real_delivered_ok handlers kinds (snd p)) steps = true.
+  forallb (fun p => real_delivered_ok handlers kinds (snd p)) steps = true /\
+  forallb (fun p => real_reads_ok scope store (snd p)) steps = true.
 Proof.
-  intros Hnd. cbv zeta.
+  intros Hnd Hgk Hlk. cbv zeta.
   assert (H : forall ops s, no_delete_failures ops = true -> hs s = handlers ->
             (forall g, EIk (hs s) (view s g) /\ NEk (view s g)) ->
-            forallb (fun p => real_streams_ok kinds (snd p)) (real_steps_of true kinds s ops) = true /\
-            forallb (fun p => real_delivered_ok handlers kinds (snd p)) (real_steps_of true kinds s ops) = true).
-  { clear ops Hnd. induction ops as [|x ops IH]; intros s Hnd Hhs Hinv; [split; reflexivity|].
-    cbn in Hnd. apply andb_true_iff in Hnd as [Hx Hops]. cbn [real_steps_of forallb snd].
+            let steps := real_steps_of true kinds scope store gets lists s ops in
+            forallb (fun p => real_streams_ok kinds (snd p)) steps = true /\
+            forallb (fun p => real_delivered_ok handlers kinds (snd p)) steps = true /\
+            forallb (fun p => real_reads_ok scope store (snd p)) steps = true).
+  { clear ops Hnd. induction ops as [|x ops IH]; intros s Hnd Hhs Hinv; [repeat split; reflexivity|].
+    cbn in Hnd. apply andb_true_iff in Hnd as [Hx Hops]. cbv zeta. cbn [real_steps_of forallb snd].
     destruct (stepf true s x) as [s' o'] eqn:E. cbn [fst].
     destruct (step_kind _ _ _ _ _ E) as [Hhs' Hk].
     assert (Hinv' : forall g, EIk (hs s') (view s' g) /\ NEk (view s' g)).
@@ -858,25 +936,40 @@ Proof.
       - eapply EIk_step; [left; reflexivity|exact He|apply Hk].
       - eapply NEk_step; [exact Hx|exact Hn|apply Hk]. }
     assert (Hhs2 : hs s' = handlers) by congruence.
-    destruct (real_monitor_state handlers kinds s' o' Hhs2 Hinv') as [H1 H2].
-    destruct (IH s' Hops Hhs2 Hinv') as [H3 H4].
-    rewrite H1, H2, H3, H4. split; reflexivity. }
+    destruct (real_monitor_state handlers kinds scope store gets lists s' o' Hhs2 Hgk Hlk Hinv') as (H1 & H2 & H3).
+    destruct (IH s' Hops Hhs2 Hinv') as (H4 & H5 & H6).
+    rewrite H1, H2, H3, H4, H5, H6. repeat split; reflexivity. }
   apply H; [exact Hnd|reflexivity|].
   intros g. split; [split; [cbn; tauto|discriminate]|discriminate].
 Qed.
 
 (** Non-vacuity: an informer that keeps running after its failed start was rolled back (two open
-    streams after the retry, one left after the last owner is gone) is rejected. *)
+    streams after the retry, one left after the last owner is gone) is rejected, ... *)
 Example judge_real_rejects_leak :
-  judge_real ([0; 1], [0; 1],
-    [(Watch 0 0 informer_sync_fails, RObs ErrInformerGet [(0, None); (1, None)] [(0, 1); (1, 0)] [(0, []); (1, [])]);
-     (Watch 0 0 ok, RObs ErrNone [(0, Some [0]); (1, None)] [(0, 2); (1, 0)] [(0, [0; 1]); (1, [])]);
-     (Free 0 ok [], RObs ErrNone [(0, None); (1, None)] [(0, 1); (1, 0)] [(0, []); (1, [])])],
-    [(0, 2); (1, 0)]) = (false, false, false, true, false).
+  judge_real ([0; 1], [0; 1], [], [],
+    [(Watch 0 0 informer_sync_fails, RObs ErrInformerGet [(0, None); (1, None)] [(0, 1); (1, 0)] [(0, []); (1, [])] [] []);
+     (Watch 0 0 ok, RObs ErrNone [(0, Some [0]); (1, None)] [(0, 2); (1, 0)] [(0, [0; 1]); (1, [])] [] []);
+     (Free 0 ok [], RObs ErrNone [(0, None); (1, None)] [(0, 1); (1, 0)] [(0, []); (1, [])] [] [])],
+    [(0, 2); (1, 0)]) = (false, false, false, true, false, true).
 Proof. vm_compute. reflexivity. Qed.
 
+(** ... a Get of a cluster-scoped kind (kind 4) that misses the served object because the caller's
+    namespace was not blanked is rejected, ... *)
+Example judge_real_rejects_scope :
+  judge_real ([0; 1], [4], [(4, false)], [(4, [(0, 0); (0, 1)])],
+    [(Watch 0 4 ok, RObs ErrNone [(4, Some [0])] [(4, 1)] [(4, [0; 1])]
+                         [(4, 0, 0, Some (Some (0, 0))); (4, 1, 0, Some None)] [(4, 0, Some [(0, 0); (0, 1)])])],
+    [(4, 1)]) = (false, false, true, true, true, false).
+Proof. vm_compute. reflexivity. Qed.
+
+(** ... and what the model predicts is accepted. *)
 Example judge_real_accepts_model :
-  let ops := [Watch 0 0 informer_sync_fails; Watch 0 0 ok; Watch 1 0 ok; Free 0 ok []; Free 1 ok []] in
-  judge_real ([0; 1], [0; 1], real_steps_of true [0; 1] (init [0; 1]) ops, [(0, 1); (1, 0)])
-  = (false, true, true, true, true).
+  let ops := [Watch 0 0 informer_sync_fails; Watch 0 0 ok; Watch 1 4 ok; Free 0 ok []; Free 1 ok []] in
+  let scope := [(0, true); (4, false)] in
+  let store := [(0, [(1, 0); (2, 0)]); (4, [(0, 0)])] in
+  judge_real ([0; 1], [0; 4], scope, store,
+              real_steps_of true [0; 4] (scope_of scope) (store_of store)
+                            [(0, 1, 0); (0, 0, 0); (4, 3, 0); (4, 0, 1)] [(0, 0); (0, 2); (4, 0)] (init [0; 1]) ops,
+              [(0, 1); (4, 1)])
+  = (false, true, true, true, true, true).
 Proof. vm_compute. reflexivity. Qed.
